@@ -89,6 +89,10 @@ def cases(rng, tier):
         free = [c for c in range(1 << n) if not c & act_on(g)]
         c = (rng.choice(free) | hi) & ~act_on(g)
         cs.append({"kind": "applyraw", "n": n, "raw": gen.random_state(rng, n), "e": ("c", c, g), "threads": rng.choice([2, 3, 5])})
+    # registers of 14-17 qubits, serial and threaded: one to three controls and the gate all on the highest qubits, basis
+    # states with all / some / none of the controls set (blocks of cells a kernel might skip or copy as a whole)
+    for _ in range(120 if tier == "quick" else 3000):
+        cs.append(gen.high_probe(rng, rng.choice(gen.ALL_KINDS[:-1]), nctrl=rng.choice([1, 2, 2, 3])))
     # SingleOp::c called directly on an element of a queue (plain, already controlled once or twice): every mask
     n = 4
     for _ in range(40 if tier == "quick" else 600):
